@@ -57,6 +57,8 @@ type Solver struct {
 	Time     time.Duration
 	dead     bool
 	extraOpen bool
+	needRestart bool
+	NCancel int
 	resetMode bool
 	ndump int
 	SlowLog func(time.Duration, Result)
@@ -250,6 +252,9 @@ func (s *Solver) Check(pc *PCNode, extra *Term) Result {
 			extra = nil
 		}
 	}
+	if s.needRestart {
+		s.restart()
+	}
 	if s.resetMode {
 		return s.checkReset(pc, extra)
 	}
@@ -316,14 +321,27 @@ func (s *Solver) readResult() Result {
 		l := s.readLine()
 		switch {
 		case l == "sat":
+			if s.needRestart {
+				return Unknown
+			}
 			return Sat
 		case l == "unsat":
+			if s.needRestart {
+				return Unknown
+			}
 			return Unsat
 		case l == "unknown" || l == "timeout":
 			return Unknown
 		case strings.HasPrefix(l, "(error"):
-			fmt.Fprintf(os.Stderr, "SOLVER ERROR: %s\n", l)
-			s.HadError = true
+			if strings.Contains(l, "canceled") || strings.Contains(l, "timeout") {
+				// the time limit fired outside check-sat (e.g. during push): the context is no longer
+				// what we think it is; the answer that follows is discarded and the process restarted
+				s.needRestart = true
+				s.NCancel++
+			} else {
+				fmt.Fprintf(os.Stderr, "SOLVER ERROR: %s\n", l)
+				s.HadError = true
+			}
 			if s.dead {
 				return Unknown
 			}
@@ -532,4 +550,23 @@ func (s *Solver) setTimeout(ms int) {
 	if s.kind != "cvc5" {
 		s.send(fmt.Sprintf("(set-option :timeout %d)\n", ms))
 	}
+}
+
+// restart replaces the solver process by a fresh one (after a cancellation outside check-sat).
+func (s *Solver) restart() {
+	if s.cmd != nil {
+		s.in.Close()
+		s.cmd.Process.Kill()
+		s.cmd.Wait()
+	}
+	n, err := NewSolver(s.ts, s.kind, s.timeoutMs, s.log)
+	if err != nil {
+		s.dead = true
+		return
+	}
+	s.cmd, s.in, s.out = n.cmd, n.in, n.out
+	s.stack, s.defs, s.adefs = nil, [][]uint32{nil}, [][]uint32{nil}
+	s.defined, s.adefined = map[uint32]bool{}, map[uint32]bool{}
+	s.sb.Reset()
+	s.extraOpen, s.needRestart, s.dead = false, false, false
 }
